@@ -6,6 +6,7 @@ CONSTANTS Pkgs <- P2
  Under <- UnderSib2
  RootPkg = "none"
  HashCoversSum = FALSE
+ SkipUnknown = FALSE
  SaveAlways = TRUE
  KeepAfterDefers = FALSE
  BehChoices <- Beh2Defer
